@@ -1,8 +1,8 @@
 CFG = {
-    "level_text": "Unbounded theorem (all definition lists in any order/overlap/adjacency/duplication, all code points): lookup(compile rs) c = union of covering lines or DEFAULT; compile cannot reach its panic. The Gallina model of compile/get_category_types is run against CharacterCategory::from_reader on generated char.def files each check.",
-    "level_note": "Proved about the model; model tied to the code by Generated/CategoryFacts.v and the differential run. Text parsing of char.def and std binary_search are trusted/tested, not proved.",
+    "level_text": "Unbounded theorems: for all definition lists in any order / overlap / adjacency / duplication and all code points, lookup(compile rs) c = union of the covering lines or DEFAULT, and compile cannot reach its panic (C17_lookup_compile_is_union, C17_compile_total); the range iterator agrees with lookup (C17_iter_agrees_with_lookup, C17_iter_none_iff_default); for every char.def TEXT the model reader (lines, comments, trimming, hex ranges, scalar checks, class names) accepts, the loaded table answers with the union of the covering lines of the text (C17_loaded_file_is_wf, C17_file_lookup_is_union). Each check the Gallina models of the reader, compile and get_category_types are run against CharacterCategory::from_reader on generated char.def files (parsed ranges and raw text incl. malformed lines), against CharCategoryIter, and against the classes read through one reused InputBuffer over changing grammars.",
+    "level_note": "Proved about the model; model tied to the code by Generated/CategoryFacts.v and the differential run. std binary_search, hex parsing of std and the bitflags name parser are assumed / tested, not proved.",
     "facts": ["CategoryFacts"],
-    "trusted": ["char.def text parsing (read_character_definition) is exercised by the correspondence run only; the model starts from the parsed ranges"],
+    "trusted": ["std u32::from_str_radix / char::from_u32 and str::split_whitespace are mirrored by the reader model and compared on every run"],
     "assumptions": ["std slice::binary_search returns the unique matching index / insertion point on a strictly sorted slice",
                     "bitflags text parser maps class names to the bits listed in Generated/CategoryFacts.v"],
 }
